@@ -38,11 +38,12 @@ type tierCfg struct {
 	ExactTO  time.Duration
 	MaxPower int
 	TaskTime time.Duration
+	Total    time.Duration // budget of one check; tasks still running are cut (reported as reduced bound)
 }
 
 var tiers = map[string]tierCfg{
-	"quick":    {MaxPaths: 4000, MaxSteps: 3_000_000, BranchTO: 600 * time.Millisecond, AssertTO: 10 * time.Second, ExactTO: 3 * time.Second, MaxPower: 8, TaskTime: 8 * time.Minute},
-	"thorough": {MaxPaths: 60000, MaxSteps: 10_000_000, BranchTO: 3 * time.Second, AssertTO: 120 * time.Second, ExactTO: 60 * time.Second, MaxPower: 64, TaskTime: 100 * time.Minute},
+	"quick":    {MaxPaths: 4000, MaxSteps: 3_000_000, BranchTO: 600 * time.Millisecond, AssertTO: 10 * time.Second, ExactTO: 3 * time.Second, MaxPower: 8, TaskTime: 8 * time.Minute, Total: 25 * time.Minute},
+	"thorough": {MaxPaths: 60000, MaxSteps: 10_000_000, BranchTO: 2 * time.Second, AssertTO: 60 * time.Second, ExactTO: 20 * time.Second, MaxPower: 64, TaskTime: 40 * time.Minute, Total: 60 * time.Minute},
 }
 
 type taskResult struct {
@@ -234,6 +235,9 @@ func cmdCheck(args []string) int {
 			results[idx] = tr
 			lim := interp.Limits{MaxPaths: tc.MaxPaths, MaxSteps: tc.MaxSteps, BranchTO: tc.BranchTO, AssertTO: tc.AssertTO, ExactTO: tc.ExactTO,
 				MaxPower: tc.MaxPower, TaskDeadline: time.Now().Add(tc.TaskTime)}
+			if g := start.Add(tc.Total); lim.TaskDeadline.After(g) {
+				lim.TaskDeadline = g
+			}
 			eng, err := interp.NewEngine(h.Name(), isIdeal(h.Name()), solverCmd, lim)
 			if err != nil {
 				tr.Err = err.Error()
